@@ -136,7 +136,7 @@ def build_variants(sd):
         ft, fa = ex.submit(b, 'tsan'), ex.submit(b, 'asan_pthread')
         return ft.result(), fa.result()
 
-SCALE = {0: 0.6, 1: 1.6, 2: 1.3, 3: 0.3, 4: 0.6}     # compaction/backup-heavy scenarios cost more per operation
+SCALE = {0: 0.6, 1: 1.6, 2: 1.3, 3: 0.3, 4: 0.6, 5: 0.6}     # compaction/backup-heavy scenarios cost more per operation
 
 def run_search(sd, exes, tier, seed):
     """runs the sanitizer workloads; returns (results, meta)."""
@@ -146,7 +146,7 @@ def run_search(sd, exes, tier, seed):
     base = os.path.join(sd, 'runs'); os.makedirs(base, exist_ok=True)
     for i in range(n_t + n_a):
         variant = 'tsan' if i < n_t else 'asan_pthread'
-        scenario = i % 5
+        scenario = i % 6
         nthreads = rng.choice([4, 6, 8])
         n = int(nops * SCALE[scenario] * (2 if variant != 'tsan' else 1))
         jobs.append((exes[0] if variant == 'tsan' else exes[1], variant, base, i, rng.below(1 << 30), scenario, nthreads,
